@@ -23,7 +23,7 @@ PLUGIN = os.path.join(ROOT, 'vp', 'chplugin.py')
 
 class Cond:
     def __init__(self, module, func, timeout=60, path_timeout=None, bound='', symbolic='', realised='',
-                 twin=None, name=None, env=None, extra_pre=(), group=None):
+                 twin=None, name=None, env=None, extra_pre=(), group=None, own=None):
         self.module, self.func = module, func
         self.timeout, self.path_timeout = timeout, path_timeout
         self.bound, self.symbolic, self.realised = bound, symbolic, realised
@@ -32,6 +32,9 @@ class Cond:
         self.extra_pre = tuple(extra_pre)
         self.name = name or ('%s.%s' % (module.rsplit('.', 1)[-1], func)) + (('#twin:' + twin) if twin else '')
         self.group = group
+        # own: clause tags this property is about; a shared condition checks more clauses than that, and a
+        # counterexample of a foreign clause makes the runner re-decide the condition with the own clauses only
+        self.own = own
 
 
 def _wrapper_source(cond, exclude_known):
@@ -285,6 +288,17 @@ def _process(ctx, cond):
             ctx.error(cond.name, 'counterexample does not replay on the plain interpreter: %s | %s | %s' % (
                 res['msg'][:300], out[-300:], err[-300:]))
             return
+        if cond.own and not res.get('narrowed'):
+            mw = re.search(r'why: (c\d+t?):', out)
+            if mw and mw.group(1) not in cond.own:
+                ctx.notes.append('%s: counterexample belongs to clause %s (another property); re-deciding with %s only'
+                                 % (cond.name, mw.group(1), ','.join(cond.own)))
+                cond = Cond(cond.module, cond.func, cond.timeout, cond.path_timeout, cond.bound, cond.symbolic,
+                            cond.realised, None, cond.name + '/own', dict(cond.env, VP_CLAUSES=','.join(cond.own)),
+                            cond.extra_pre, cond.group, None)
+                res = run_one(cond)
+                res['narrowed'] = True
+                continue
         mk = re.search(r'KNOWN=(\S+)', out)
         key = mk.group(1) if mk and mk.group(1) != 'None' else None
         if key and ctx.known_active(key) and rounds <= 2:
